@@ -88,10 +88,11 @@ func loadAPIIndex() *apiIndex {
 }
 
 var (
-	rePkgFunc    = regexp.MustCompile(`\b([a-z][a-z0-9]*)\.([A-Z]\w*)`)
-	reTypeMethod = regexp.MustCompile(`\b([A-Z]\w*)\.([A-Z]\w*)`)
-	reMethodCall = regexp.MustCompile(`\.([A-Z]\w*)\(`)
-	reOctal      = regexp.MustCompile(`\b0[oO][0-7]`)
+	rePkgFunc       = regexp.MustCompile(`\b([a-z][a-z0-9]*)\.([A-Z]\w*)`)
+	reTypeMethod    = regexp.MustCompile(`\b([A-Z]\w*)\.([A-Z]\w*)`)
+	reMethodCall    = regexp.MustCompile(`\.([A-Z]\w*)\(`)
+	reMethodMention = regexp.MustCompile(`\.([A-Z]\w*)\b(?:[^(\w]|$)`)
+	reOctal         = regexp.MustCompile(`\b0[oO][0-7]`)
 )
 
 // recommendations extracts (api, first version) pairs mentioned in text but not in src.
@@ -114,6 +115,17 @@ func recommendations(idx *apiIndex, text, src string) map[string]int {
 			// only a method (not pkg.Func) mention
 			if _, isFunc := out[funcKeyBefore(text, m[1])]; !isFunc {
 				out["."+m[1]+"()"] = v
+			}
+		}
+	}
+	// a method named without a call ("use m.LoadAndDelete to ..."): only when the source does not mention
+	// the name at all, so that quoted user code never counts
+	for _, m := range reMethodMention.FindAllStringSubmatch(text, -1) {
+		if v, ok := idx.byName[m[1]]; ok && !strings.Contains(src, "."+m[1]) {
+			if _, isFunc := out[funcKeyBefore(text, m[1])]; !isFunc {
+				if _, seen := out["."+m[1]+"()"]; !seen {
+					out["."+m[1]] = v
+				}
 			}
 		}
 	}
